@@ -1,6 +1,6 @@
 """Per-property metadata: single source of truth for MANIFEST.json."""
 
-HOOK_COMMITS = ["de1cf5f", "8fe0b83", "8b52b07"]
+HOOK_COMMITS = ["de1cf5f", "8fe0b83", "8b52b07", "aba82cb"]
 
 NOTES = ("All checks: bin/check <ID> --tier quick|thorough; exit 0 held / 1 VIOLATION / 2 infrastructure. "
          "Scratch under ${VERIF_SCRATCH:-/var/tmp}, removed on exit. known_findings.json lists recorded defects.")
@@ -137,7 +137,9 @@ CHECKS = {
                  "variant is then run on the real VM and must yield an outcome TengoSem allows, mapped back to the base's result. "
                  "SymbolTable.tla models the compiler's symbol table (Define/Resolve/assign/Fork/leave, free-variable capture, block slot reuse, "
                  "root-level accounting of globals) with the invariants lexical resolution, live locals disjoint, frames large enough, global "
-                 "slots unique, free lists servable; one witness call history per (state, call) edge is replayed on a real tengo.SymbolTable."),
+                 "slots unique, free lists servable; one witness call history per (state, call) edge is replayed on a real tengo.SymbolTable; "
+                 "in the other direction the compiler's own calls (hooks) are trace-validated per compilation unit (SymbolTableTrace.tla), with the "
+                 "invariants evaluated in every state a real compilation reaches."),
         "design_ref": "DESIGN.md 8/C11, 15.11",
         "note": "Trusted: TLC; the AST transformations (checked per program by the model-level equality). Closures in global-scope loops are not generated.",
         "technique": "TLA+ reference semantics evaluated on program variants (metamorphic relation checked on the model and on the real VM)",
